@@ -368,6 +368,112 @@ def g_small(c, hd, present):
     return f"(mkRC {g_Z(c['k'])} {g_nat(c['start'])} {lv} {g_list(obs)})"
 
 
+def extra_scenarios(V, base, rng):
+    """Judged by the statement itself (no model replay):
+    (1) a Builder whose TOAST base was sampled whole and then overlaid through a tile filter, cascaded with
+        Builder.cascade(): root cards, ImageSet range and WTML must span every leaf, and every ancestor exists;
+    (2) a read fault (OSError EIO) on an existing leaf during the cascade: either the cascade raises, or the
+        root still accounts for that leaf."""
+    import errno
+    import shutil
+    from astropy.io import fits
+    from toasty.builder import Builder
+    from toasty.pyramid import PyramidIO
+    from toasty.merge import cascade_images, averaging_merger
+    n = 0
+    # ---- (1)
+    d1 = os.path.join(base, "layers")
+    shutil.rmtree(d1, ignore_errors=True)
+    pio = PyramidIO(d1, default_format="fits")
+    b = Builder(pio)
+
+    def s_all(lon, lat):
+        v = 10.0 + 5.0 * np.sin(lon) * np.cos(lat)
+        v = np.where((lat > 1.0) & (lon % 6.283 < 1.0), 500.0, v)      # a bright source far from the overlay
+        v = np.where((lat < -1.0) & (lon % 6.283 > 4.0), -300.0, v)    # and a hole
+        return v.astype(np.float32)
+
+    def s_patch(lon, lat):
+        return np.full(lon.shape, 20.25, dtype=np.float32)
+    keep = {(1, 0, 0), (2, 0, 0), (2, 1, 1)}
+    try:
+        with warnings.catch_warnings(), _quiet():
+            warnings.simplefilter("ignore")
+            b.toast_base(s_all, 2, parallel=1)
+            b.toast_base(s_patch, 2, parallel=1, tile_filter=lambda t: tuple(t.pos) in keep)
+            b.cascade(parallel=1)
+            b.write_index_rel_wtml()
+        hdr = scan_headers(d1, 3)
+        leaves = {p: v for p, v in hdr.items() if p[0] == 2}
+        lo = min(v[0] for v in leaves.values() if v[0] is not None)
+        hi = max(v[1] for v in leaves.values() if v[1] is not None)
+        why = []
+        missing = [q for q in [(0, 0, 0)] + [(1, x, y) for x in range(2) for y in range(2)] if q not in hdr]
+        if missing:
+            why.append(f"tiles {missing} were not produced although leaves exist beneath them")
+        root = hdr.get((0, 0, 0))
+        if root is not None and not (num_eq(root[0], lo) and num_eq(root[1], hi)):
+            why.append(f"root cards {root} but the leaves span ({lo}, {hi})")
+        got = (b.imgset.data_min, b.imgset.data_max)
+        if not (num_eq(got[0], lo) and num_eq(got[1], hi)):
+            why.append(f"ImageSet range {got} but the leaves span ({lo}, {hi})")
+        w = wtml_range(d1)
+        if not (num_eq(w[0], lo) and num_eq(w[1], hi)):
+            why.append(f"WTML range {w} but the leaves span ({lo}, {hi})")
+        if why:
+            V.disagreement("C14 predicate: Builder with an unfiltered TOAST base, a filtered overlay, then cascade()",
+                           dict(type="builder-layers", depth=2, overlay=sorted(map(list, keep))), "root / ImageSet / WTML span every leaf",
+                           why[:4], True)
+    except Exception as e:  # noqa
+        V.disagreement("C14 scenario: Builder layers", dict(type="builder-layers"), "completes", repr(e), None)
+    n += 1
+    shutil.rmtree(d1, ignore_errors=True)
+    # ---- (2)
+    for trial in range(2):
+        d2 = os.path.join(base, f"fault{trial}")
+        shutil.rmtree(d2, ignore_errors=True)
+        # three leaves under different level-1 parents; one of them holds the global maximum
+        leaves = {}
+        for k, p in enumerate([(2, 0, 0), (2, 3, 1), (2, 1, 2 + trial)]):
+            a = np.full((TILE, TILE), 10.0 + k, dtype=np.float32)
+            a[5:9, 7:11] = np.nan
+            leaves[p] = ("F32", a)
+        leaves[(2, 3, 1)][1][100, 100] = 12345.5
+        nprng = np.random.RandomState(rng.randrange(2 ** 32))
+        pio = write_leaves_c14(d2, leaves, "pio", nprng)
+        stored = dict(leaves)
+        top = (2, 3, 1)
+        true_max = 12345.5
+        target = os.path.realpath(pio.tile_path(__import__("toasty").pyramid.Pos(*top)))
+        real_open = fits.open
+        fired = []
+
+        def faulty_open(name, *a, **kw):
+            if not fired and isinstance(name, str) and os.path.realpath(name) == target:
+                fired.append(1)
+                raise OSError(errno.EIO, "Input/output error", name)
+            return real_open(name, *a, **kw)
+        raised = None
+        fits.open = faulty_open
+        try:
+            with warnings.catch_warnings(), _quiet():
+                warnings.simplefilter("ignore")
+                cascade_images(pio, 2, averaging_merger, parallel=1)
+        except Exception as e:  # noqa: reporting the fault is the correct outcome
+            raised = e
+        finally:
+            fits.open = real_open
+        n += 1
+        if raised is None and fired:
+            root = scan_headers(d2, 2).get((0, 0, 0))
+            if root is None or not num_eq(root[1], true_max):
+                V.disagreement("C14 predicate: a read fault on an existing leaf during the cascade is reported or the leaf still counts",
+                               dict(type="read-fault", leaf=list(top), errno="EIO"), dict(root_DATAMAX=true_max),
+                               dict(root=root, cascade="returned normally"), True)
+        shutil.rmtree(d2, ignore_errors=True)
+    return n
+
+
 def run(ctx, V):
     rng = common.rng_for(ctx["seed"], "C14")
     tier = ctx["tier"]
@@ -421,6 +527,8 @@ def run(ctx, V):
         hist[key] = hist.get(key, 0) + 1
         if len(samples) < 3:
             samples.append(dict(cfg=list(cfg), seed=seedinfo, tiles=nt))
+    n_extra = extra_scenarios(V, base, rng)
+    hist["builder-layers + read-fault scenarios"] = n_extra
     return dict(
         evaluations=len(small) + len(items),
         distinct_nontrivial=nontrivial + n_nontriv_small,
